@@ -179,14 +179,20 @@ def gen_case(rng, tier, filtered):
 
 
 def has_override(mir):
-    """a space defines a reference that one of its bases defines too: read_model cannot rebuild such a
-    model when the sub space is read first (recorded defect read_override), so no round trip then"""
-    for r in mir.refs:
-        m, s = r["own"]
-        if s is None or m in mir.closed:
+    """two spaces define the same reference name and a strict sub space of one is the other or one of its
+    sub spaces: read_model re-creates references one by one on the finished inheritance graph and
+    SpaceManager.new_ref then refuses the later one (recorded defect read_override), so no round trip"""
+    for r1 in mir.refs:
+        m, b1 = r1["own"]
+        if b1 is None or m in mir.closed:
             continue
-        if any(mir.find_ref((m, b), r["name"]) for b in mir.mro(mir.bases, m, s)[1:]):
-            return True
+        d1 = set(mir.descendants(mir.bases, m, b1))
+        for r2 in mir.refs:
+            if r2 is r1 or r2["own"][0] != m or r2["own"][1] is None or r2["name"] != r1["name"]:
+                continue
+            b2 = r2["own"][1]
+            if d1 & (set(mir.descendants(mir.bases, m, b2)) | {b2}):
+                return True
     return False
 
 
@@ -291,6 +297,8 @@ def oracle(case, res):
             bad.append((k, "two specs claim one file location: %r" % (mgr,)))
         if ob["sane"] is not True:
             bad.append((k, "_check_sanity fails: %r" % (ob["sane"],)))
+        if ob.get("crash"):
+            bad.append((k, "observing the model raised: %r" % (ob["crash"],)))
         # persistence: a spec may go only when no reference holds its value any more
         for v in prev["mgr"]:
             if v[0] in closed:
